@@ -93,9 +93,11 @@ def r_label_closure(repo, rep, R='R19.1'):
     mod = repo.module(PROLOG)
     for lang, table in (('en', '_op_mapping'), ('ja', '_ja_combinators')):
         val = mod.assign(table)
-        if not isinstance(val, ast.Dict) or not all(isinstance(k, ast.Constant) for k in val.keys):
-            raise AnalysisError('%s: %s is not a literal dict' % (PROLOG, table))
-        keys = {k.value for k in val.keys}
+        from ..rules_grammar import const_dict_keys
+        klist = const_dict_keys(mod, val) if val is not None else None
+        if klist is None:
+            raise AnalysisError('%s: %s is not a dictionary whose keys can be read off the source' % (PROLOG, table))
+        keys = set(klist)
         uses = table_uses(mod, table)
         if not uses:
             raise AnalysisError('%s: table %s is never indexed' % (PROLOG, table))
@@ -388,6 +390,12 @@ def check(repo, rep, tier):
     rep.floor('format choices', sum(len(v[0]) for v in choices.values()), 23)
     n = r_token_access(repo, rep)
     rep.floor('printer functions inspected for token access', n, 35)
+    rep.rule('R19.5', 'iterators created per sentence are not consumed per n-best tree (the second tree of a sentence would find them used up); results gathered from the workers are one flat list of per-sentence lists')
+    from ..lints import r_oneshot_iterators
+    r_oneshot_iterators(repo, rep, 'R19.5', repo.py_files('depccg/printer') + ['depccg/parsing.py', 'depccg/tree.py'],
+                        'rendering the second n-best tree of a sentence raises StopIteration (or silently writes nothing), and the whole batch with it')
+    from .c11 import r_gather
+    r_gather(repo, rep, 'R19.5')
     nf, ns = r_feature_and_shape(repo, rep)
     rep.floor('feature member reads in printers', nf, 1)
     rep.floor('shape-specific reads in category printers', ns, 10)
